@@ -309,3 +309,7 @@ Definition usable (s : schema) (t : ity) : Prop := bound s t /\ input_ty s t.
 Definition raising_scalar (k : scalar_kind) : bool := match k with KOdd => true | _ => false end.
 Definition scalars_behaved (s : schema) : Prop :=
   forall n k, alookup n s = Some (TDScalar k) -> raising_scalar k = false.
+
+(* field names of an input object type are distinct (schema validation) *)
+Definition fields_unique (s : schema) : Prop :=
+  forall n fs, alookup n s = Some (TDInput fs) -> NoDup (map f_name fs).
